@@ -138,14 +138,15 @@ theorem phase_upd (hp : Phase y p) (u : LocalUpd p.a e' i o' em dq)
       have hndq : ¬ y ∈ dq := fun hh => hnd (by show y ∈ e'.droppedq; rw [u.dq]; exact List.mem_append_right _ hh)
       exact k8 hndq (h15 hnd0)
   · -- linked
-    obtain ⟨i0, j, oA, oB, h1, h2, h3, h4, h5, h6, h7⟩ := r.body
+    obtain ⟨i0, j, oA, oB, h1, h2, h3, h4, h5, h6, c1, c2, h7⟩ := r.body
     obtain ⟨hji, honly'⟩ := honly i0 h5
     subst hji
     have hoA : oA = o := by
       rw [show (ev y p.a p.ga).objs i0 = objView y p.a i0 from rfl, hov] at h3; cases h3; rfl
     subst hoA
     refine Or.inr (Or.inr (Or.inr (Or.inr (Or.inr (Or.inl ⟨by show ¬ y ∈ e'.rng; rw [hrng]; exact r.ra, r.rb, hnc _ r.nab, hnc2 r.nba,
-      ⟨i0, j, o', oB, by show lookup e'.flows y = _; rw [hslot]; exact h1, h2, hov', h4, honly', h6, ?_⟩⟩)))))
+      ⟨i0, j, o', oB, by show lookup e'.flows y = _; rw [hslot]; exact h1, h2, hov', h4, honly', h6,
+        by show o'.cap = e'.opts.rwnd; rw [hcap.1, u.opts]; exact c1, c2, ?_⟩⟩)))))
     intro hda hdb
     obtain ⟨⟨l1, d1⟩, ⟨l2, d2⟩⟩ := h7 (hdq2 hda) hdb
     rw [hwl0] at d1
